@@ -797,7 +797,7 @@ class SrvAdapter:
                     n = self._name(sid)
                     d[n] = tname.get(eid, '?' + str(eid))
                 rooms[ns][key] = d
-        pending = {ns: sorted(self._name(s) for s in lst)
+        pending = {ns: [self._name(s) for s in lst]      # a list, in order
                    for ns, lst in m.pending_disconnect.items()
                    if ns not in hidden}
         hidden_sids = set()
